@@ -39,7 +39,7 @@ func runC11(c *fw.Ctx, idx int) fw.Result {
 	opts := gen.AnnoOpts{MaxFeats: 4, AllowUnnamed: true, AllowSlip: true, SplitCodons: true, SamConflicts: true, Rotate: true, NoStop: true}
 	vp := gen.DefaultVarProfile()
 	nqMax := 6
-	if idx%300 == 5 {
+	if idx%300 == 5 && (!c.Thorough() || idx%3000 == 5) {
 		// a genome wider than 64 KiB: the pairwise rows are single lines longer than a default
 		// scanner buffer
 		opts.GenomeLen = r.Range(65600, 70000)
